@@ -3,6 +3,7 @@
 Prints, per seed, the properties that report it; exits 1 if a seed that meta.json records as detected is no longer
 reported by the same properties.  (The authoritative run - git apply to /repo - is tools/reseed_table.py.)"""
 import glob, json, multiprocessing, os, sys
+from concurrent.futures import ProcessPoolExecutor, as_completed
 root = os.path.dirname(os.path.dirname(os.path.abspath(__file__)))
 sys.path.insert(0, root)
 from clikit_sa import selftest
@@ -26,19 +27,21 @@ def one(args):
 
 if __name__ == "__main__":
     only = [a for a in sys.argv[1:] if not a.startswith("--")]
-    with multiprocessing.Pool(16) as pool:
-        bases = dict(pool.map(base, PROPS))
-        jobs = []
-        metas = {}
-        for d in sorted(glob.glob(os.path.join(root, "seeded", "C*-*"))):
-            name = os.path.basename(d)
-            if only and name not in only:
-                continue
-            metas[name] = json.load(open(os.path.join(d, "meta.json")))
-            diff = open(os.path.join(d, "patch.diff")).read()
-            for p in PROPS:
-                jobs.append((p, name, diff, bases[p]))
-        out = pool.map(one, jobs, chunksize=4)
+    from clikit_sa.parallel import pmap
+
+    bases = dict(pmap(base, PROPS))
+    jobs = []
+    metas = {}
+    for d in sorted(glob.glob(os.path.join(root, "seeded", "C*-*"))):
+        name = os.path.basename(d)
+        if only and name not in only:
+            continue
+        metas[name] = json.load(open(os.path.join(d, "meta.json")))
+        diff = open(os.path.join(d, "patch.diff")).read()
+        for p in PROPS:
+            jobs.append((p, name, diff, bases[p]))
+    res = pmap(one, jobs, label=lambda j: "%s under %s" % (j[1], j[0]))
+    out = [((j[0], j[1], "broken", o[1], []) if (o and o[0] == "__error__") else o) for j, o in zip(jobs, res)]
     det = {}
     for o in out:
         if o[2] == "detected":
